@@ -694,7 +694,11 @@ class World:
                 if t[2] == "-":
                     h.state_machine(None)
                 else:
-                    h.state_machine(self.build_pdu(name, t[3:]))
+                    try:
+                        pdu = self.build_pdu(name, t[3:])
+                    except Exception as e:  # noqa: BLE001  the harness's own constructor call failed
+                        return f"bad-pdu {type(e).__name__}"
+                    h.state_machine(pdu)
                 return "ok ret=- " + self.status(name)
             if op == "get":
                 p = h.get_next_packet()
